@@ -114,6 +114,7 @@ def opOfJson (j : Json) : Except String Op := do
   | "rm_met" => pure (.rmMet (← s "m"))
   | "rm_met_d" => pure (.rmMetD (← s "m"))
   | "rm_rxn_o" => pure (.removeRxnO (← s "r"))
+  | "observe" => pure .observe
   | "set_rule" => do
     match fromString (← s "rule") with
     | .rule g => pure (.setRule (← s "r") g)
